@@ -112,6 +112,26 @@ type sim struct {
 	res     *Result
 	op      int
 	lastSrc []byte
+	// disk is the simulated storage: one buffer that every save overwrites and
+	// every load reads in place, the way an application reuses its I/O buffer.
+	disk []byte
+}
+
+// diskWriter writes into the simulated disk from its start.
+type diskWriter struct {
+	s *sim
+	n int
+}
+
+func (w *diskWriter) Write(p []byte) (int, error) {
+	if w.n+len(p) > len(w.s.disk) {
+		grown := make([]byte, 2*(w.n+len(p)))
+		copy(grown, w.s.disk[:w.n])
+		w.s.disk = grown
+	}
+	copy(w.s.disk[w.n:], p)
+	w.n += len(p)
+	return len(p), nil
 }
 
 // call runs an API call, turning a panic into a violation.
@@ -784,7 +804,15 @@ func (s *sim) pathOf(target *mBlock) ([]int, bool) {
 }
 
 func (s *sim) saveReload() {
-	src := s.checkSaved()
+	want := s.checkSaved()
+	// save to the simulated disk, then load from it in place
+	dw := &diskWriter{s: s}
+	var werr error
+	s.call("File.WriteTo", func() { _, werr = s.file.WriteTo(dw) })
+	if werr != nil || !bytes.Equal(s.disk[:dw.n], want) {
+		fail("write_fault", "WriteTo to a healthy writer returned err=%v or bytes different from Bytes()", werr)
+	}
+	src := s.disk[:dw.n]
 	var nf *hclwrite.File
 	var diags hcl.Diagnostics
 	s.call("hclwrite.ParseConfig", func() { nf, diags = hclwrite.ParseConfig(src, "saved.hcl", hcl.InitialPos) })
@@ -886,9 +914,12 @@ func runHistory(h *History) (res *Result) {
 	if h.Init.Kind == "empty" {
 		s.call("NewEmptyFile", func() { s.file = hclwrite.NewEmptyFile() })
 		s.root = &mBody{}
+		s.disk = make([]byte, 1<<14)
 	} else {
-		src := []byte(h.Init.Source())
-		ab, diags := attributeSource(src)
+		s.disk = make([]byte, 1<<14)
+		n0 := copy(s.disk, h.Init.Source())
+		src := s.disk[:n0]
+		ab, diags := attributeSource(append([]byte{}, src...))
 		if diags.HasErrors() {
 			// the generator produced an invalid initial file: harness trouble
 			res.Verdict, res.Detail = "internal", "generated initial source does not parse: "+dumpDiags(diags)+"\n"+string(src)
